@@ -294,7 +294,7 @@ def selftest(st):
 
 def main(tier, seed):
     q = tier == 'quick'; jobs = []
-    lens = [0, 1, 3] if q else [0, 1, 2, 3, 5, 8]
+    lens = [0, 1, 2, 3, 4, 5, 8, 9] if q else [0, 1, 2, 3, 4, 5, 7, 8, 9, 16, 17]
     for form, (ta, kb, side, comp, tr) in FORMS.items():
         ops = [0] if kb in ('n', 'p') else range(4)
         for op in ops:
